@@ -20,6 +20,7 @@ func init() {
 			"LP-PIPE: each stage is fed the previous stage's line",
 			"PV-API pattern literals are prefixes; pattern/JSON-path readers decode runes; KeyToLabel class table",
 			"PV-ALIAS no unsafe.String in the engine or the backend; LP-OFFLOAD stops at stages that rewrite the line (unpack included)",
+			"MO over the JSON path table: what is extracted does not depend on the order the paths are visited",
 		},
 		NotDecided: []string{"that jx, logfmt and regexp return the values that are in the document", "logqlpattern.Match's literal/capture alternation", "JSON path parsing"},
 		Rules: func(r *Run) {
@@ -52,6 +53,7 @@ func init() {
 			ruleKeyToLabel(r)
 			ruleNoUnsafeStrings(r, []string{enginePkg, dockerlogPkg})
 			ruleLPOffload(r) // a filter after unpack is evaluated on the unpacked line
+			ruleMO(r, 10, "jsonexpr")
 		},
 	})
 }
